@@ -446,6 +446,11 @@ class Interp(object):
         n = e.id
         if n in frame.locals:
             return frame.locals[n]
+        clo = frame.locals.get('__closure__')
+        while clo is not None:
+            if n in clo:
+                return clo[n]
+            clo = clo.get('__closure__')
         r = self.on_name(n, frame)
         if r is not self.NOT_HANDLED:
             return r
@@ -871,6 +876,11 @@ class Interp(object):
                 return UnknownMethod(base, f.attr, norm(f))
             return self.load_attr(base, f.attr, f, frame)
         if isinstance(f, ast.Name) and f.id not in frame.locals:
+            clo = frame.locals.get('__closure__')
+            while clo is not None:
+                if f.id in clo:
+                    return clo[f.id]
+                clo = clo.get('__closure__')
             r = self.on_name(f.id, frame)
             if r is not self.NOT_HANDLED:
                 return r
@@ -891,6 +901,8 @@ class Interp(object):
             return self.call_function(callee.fi, a, kwargs, node, frame)
         if isinstance(callee, NativeMethod):
             return callee.recv.call_method(callee.name, args, kwargs, self, frame, node)
+        if isinstance(callee, Native) and hasattr(callee, 'call'):
+            return callee.call(args, kwargs, self, frame, node)
         if isinstance(callee, ClassRef):
             return self.construct(callee.name, args, kwargs, node, frame)
         if isinstance(callee, tuple) and callee and callee[0] == 'builtin':
@@ -1096,6 +1108,8 @@ class Interp(object):
         if name in ('round', 'abs', 'float', 'bool', 'str', 'repr'):
             if isinstance(a0, Sym):
                 return Sym(name, *args)
+            if name in ('str', 'repr') and len(args) == 1 and (a0 is None or isinstance(a0, (bool, int, float, str, bytes))):
+                return str(a0) if name == 'str' else repr(a0)
             if isinstance(a0, (int, float)) and not isinstance(a0, bool) and name in ('round', 'abs', 'float') and len(args) == 1:
                 return {'round': round, 'abs': abs, 'float': float}[name](a0)
             if name == 'bool':
@@ -1214,6 +1228,8 @@ class Interp(object):
         if name == 'iter':
             return Obj('iter', {'of': a0})
         if name == 'next':
+            if isinstance(a0, Native) and hasattr(a0, 'next_value'):
+                return a0.next_value(self, frame, node)
             return Top('next')
         if name == 'super':
             return Top('super')
@@ -1286,6 +1302,9 @@ class Interp(object):
             raise Unsupported('inlining depth exceeded at %s calling %s' % (self.where(node, frame), fi.qualname))
         self_class = frame.self_class
         new = Frame(fi, fi.module, self_class, frame.depth + 1)
+        clo = getattr(fi, 'closure', None)
+        if clo is not None:
+            new.locals['__closure__'] = clo
         self.bind_params(fi, args, kwargs, new, node, frame)
         ctrl = self.block(fi.node.body, new)
         if ctrl is not None and ctrl.kind == 'return':
@@ -1523,7 +1542,9 @@ class Interp(object):
                 return c
 
     def st_FunctionDef(self, s, frame):
-        frame.locals[s.name] = FuncRef(FuncInfo(frame.module, None, s))
+        fi = FuncInfo(frame.module, None, s)
+        fi.closure = frame.locals          # free variables resolve in the defining frame
+        frame.locals[s.name] = FuncRef(fi)
         return None
 
     # ------------------------------------------------------------ stores
